@@ -2,15 +2,14 @@
 C05 — Farm: staked principal is exactly accounted for and always withdrawable.
 Headline theorems about the model `Irismod.Farm` (every state, every operation, every history).
 
-* (a) Σ farmers' stakes = pool total: invariant of *all* histories (`stakes_sum_run`).
-* (b) module account = Σ stakes + Σ undistributed budgets, (c) principal leg always covered:
-  invariants of all histories that contain no operation of the F-farm-2 class
-  (`module_account_partial`, `principal_covered_partial`); false without the exclusion
-  (`module_account_can_fail`).
+* (a) Σ farmers' stakes = pool total (`stakes_sum_run`), (b) module account = Σ stakes +
+  Σ undistributed budgets (`module_account_run`), (c) principal leg always covered
+  (`principal_covered_run`): invariants of *all* histories.
 * (d) "a withdrawal up to the recorded stake never fails" is FALSE of the code
   (`withdraw_can_fail`, witness F-farm-1); what is true: it can only fail through a reward-
-  collector shortfall (F-farm-1), the F-farm-2 class, or a decimal-range panic
-  (`unstake_ok_partial`).
+  collector shortfall (F-farm-1) or a decimal-range panic (`unstake_ok_partial`).
+(The former exclusion of the F-farm-2 class is gone: the code was repaired in commit 966aea0
+and the model follows the repaired `AdjustPool`.)
 -/
 import Irismod.Proofs.FarmWitness
 
@@ -41,20 +40,20 @@ theorem stakes_sum_reachable (s : State) (hr : Reachable s) : StakesSum s := by
   obtain ⟨s0, ops, hg, rfl⟩ := hr
   exact stakes_sum_run s0 ops (stakes_genesis hg)
 
-/-! ### (b), (c) module account identity and principal coverage, outside the F-farm-2 class -/
+/-! ### (b), (c) module account identity and principal coverage -/
 
 /-- the bundle holds initially … -/
 theorem inv_init {s : State} (hg : Genesis s) (hh : 0 ≤ s.height) : Inv s := inv_genesis hg hh
 
-/-- … and is preserved by every operation outside the F-farm-2 class. -/
-theorem inv_step (s : State) (op : Op) (hi : Inv s) (hx : ¬ C06.EndTopUp s op) : Inv (apply s op) :=
-  inv_apply s op hi hx
+/-- … and is preserved by every operation. -/
+theorem inv_step (s : State) (op : Op) (hi : Inv s) : Inv (apply s op) :=
+  inv_apply s op hi
 
-/-- **C05(b)**: along every history without an F-farm-2 operation the farm module account
-holds exactly all pools' staked tokens plus all undistributed reward budgets, denom by denom. -/
-theorem module_account_partial (s0 : State) (ops : List Op) (hg : Genesis s0) (hh : 0 ≤ s0.height)
-    (hc : Clean s0 ops) : ModuleAccount (run s0 ops) :=
-  (inv_run ops s0 (inv_genesis hg hh) hc).modacc
+/-- **C05(b)**: along every history the farm module account holds exactly all pools' staked
+tokens plus all undistributed reward budgets, denom by denom. -/
+theorem module_account_run (s0 : State) (ops : List Op) (hg : Genesis s0) (hh : 0 ≤ s0.height) :
+    ModuleAccount (run s0 ops) :=
+  (inv_run ops s0 (inv_genesis hg hh)).modacc
 
 theorem principal_covered_of_inv {s : State} (hi : Inv s) : PrincipalCovered s := by
   intro a id f p hf hp
@@ -72,19 +71,9 @@ theorem principal_covered_of_inv {s : State} (hi : Inv s) : PrincipalCovered s :
 
 /-- **C05(c)**: the principal leg of any withdrawal up to the recorded stake is covered by
 the module account. -/
-theorem principal_covered_partial (s0 : State) (ops : List Op) (hg : Genesis s0) (hh : 0 ≤ s0.height)
-    (hc : Clean s0 ops) : PrincipalCovered (run s0 ops) :=
-  principal_covered_of_inv (inv_run ops s0 (inv_genesis hg hh) hc)
-
-set_option maxRecDepth 100000 in
-/-- **C05(b) is false without the exclusion**: after the F-farm-2 history the EndBlocker's
-failed refund has written the btc rule without moving the coins — the module account holds
-10 btc against a recorded budget of 0 (finding F-farm-2). -/
-theorem module_account_can_fail : ¬ (∀ s, Reachable s → ModuleAccount s) := by
-  intro h
-  have := h _ ⟨w2Genesis, w2Ops, w2_genesis, rfl⟩ "btc"
-  revert this
-  decide
+theorem principal_covered_run (s0 : State) (ops : List Op) (hg : Genesis s0) (hh : 0 ≤ s0.height) :
+    PrincipalCovered (run s0 ops) :=
+  principal_covered_of_inv (inv_run ops s0 (inv_genesis hg hh))
 
 /-! ### (d) the full statement is false: witness F-farm-1 -/
 
@@ -128,8 +117,7 @@ def CollectorCovers (s : State) (a : Addr) (id : PoolId) (amt : Nat) (p : Pool) 
 def NoRangePanic (s : State) (a : Addr) (id : PoolId) (amt : Nat) (p : Pool) (f : Farmer) : Prop :=
   ∀ w, unstakeAt s a id p.lpt amt p f ≠ .error (.panic w)
 
-/-- **C05(d')**: in a state of the bundle (every state reached without an F-farm-2 operation,
-`inv_run`), a user's withdrawal of any amount up to the recorded stake is accepted whenever
+/-- **C05(d')**: in a state of the bundle (every reachable state, `inv_run`), a user's withdrawal of any amount up to the recorded stake is accepted whenever
 the reward collector covers the accrued reward and no decimal-range panic occurs: `Unstake`
 never rejects for any other reason — not for the principal, not for the pool update, at any
 height, before or after the pool has ended or been destroyed. -/
